@@ -1,0 +1,23 @@
+//go:build verif
+// +build verif
+
+package bal_slb
+
+import "github.com/bfenetworks/bfe/bfe_balance/backend"
+
+// VerifC09Backend is a read-only view of one BackendRR for the verification harness (build tag verif).
+type VerifC09Backend struct {
+	Weight  int
+	Backend *backend.BfeBackend
+}
+
+// VerifC09Backends lists the backends in list order.
+func (brr *BalanceRR) VerifC09Backends() []VerifC09Backend {
+	brr.Lock()
+	defer brr.Unlock()
+	out := make([]VerifC09Backend, 0, len(brr.backends))
+	for _, b := range brr.backends {
+		out = append(out, VerifC09Backend{Weight: b.weight, Backend: b.backend})
+	}
+	return out
+}
